@@ -221,8 +221,8 @@ func (r *TrzszRelay) addHandshakeBuffer(buffer *trzszBuffer, data []byte, tunnel
 		vhook("relay.park.skip", int(status))
 		return status, false
 	}
-	buffer.addBuffer(data)
 	vhook("relay.park.done", int(status))
+	buffer.addBuffer(data)
 	return status, true
 }
 
